@@ -69,7 +69,7 @@ def run(ck, progs):
         rr = ReachRule(ck, prog, "C08 REACH", rs + serde, boundary=BOUNDARY, audit=AUDIT,
                        stop=[r"^ohkami::response::", r"<impl ohkami::response::Response>"])
         sinks = rr.run()
-        ck.floor("C08 REACH", "sinks reached [%s]" % cfg, len(sinks), 60 if cfg != "R" else 40)
+        ck.floor("C08 REACH", "functions reached [%s]" % cfg, len(rr.R.reached), 200)
     ck.config = None
 
 TECHNIQUE = "MIR call-graph reachability of panic/unsafe sinks + dominance-checked guard audit"
